@@ -45,8 +45,8 @@ func leanStr(s string) string {
 // ---------- regular expressions ----------
 
 var knownClasses = map[string]string{
-	"[(0, 9), (11, 255)]": "clsAny",
-	"[(0, 8), (11, 11), (14, 31), (33, 255)]":     "clsNonSpace",
+	"[(0, 9), (11, 1114111)]": "clsAny",
+	"[(0, 8), (11, 11), (14, 31), (33, 1114111)]": "clsNonSpace",
 	"[(9, 10), (12, 13), (32, 32)]":               "clsSpace",
 	"[(48, 57)]":                                  "clsDigit",
 	"[(48, 57), (65, 90), (97, 122)]":             "clsAlnum",
@@ -107,9 +107,9 @@ func classOf(re *syntax.Regexp) (string, error) {
 		}
 		// merge with a trailing ASCII range ending at 0x7f
 		if n := len(parts); n > 0 && strings.HasSuffix(parts[n-1], ", 127)") {
-			parts[n-1] = strings.TrimSuffix(parts[n-1], "127)") + "255)"
+			parts[n-1] = strings.TrimSuffix(parts[n-1], "127)") + "1114111)"
 		} else {
-			parts = append(parts, "(128, 255)")
+			parts = append(parts, "(128, 1114111)")
 		}
 	}
 	s := "[" + strings.Join(parts, ", ") + "]"
